@@ -179,6 +179,10 @@ FAULTS = [
     ("mov r0   «,» ]", "invalid-operand"), ("mov r0 ; c\n\t  «,» ; d\n]", "invalid-operand"), ("1, 2 \t«,» ]", "invalid-operand"), (".word 1 + «»)", "invalid-insn"),
     (".ascii «\"abc»", "unterminated-string", "bk", "start-only"), ("x «=» ]", "invalid-assignment"), (".rad50 \"a\" «<50>»", "value-out-of-bounds"), ("«.error ;abcdef»", "user-error"),
     ("«.error  oops   ; why»", "user-error"),
+    # a code block where a value is expected: the culprit is the block, from its opening brace to its closing one
+    (".word 1 «{ nop }»", "unexpected-code-block"), (".word 1, 2 \t«{ nop ; c\n halt\n }»", "unexpected-code-block"), ("mov #1 «{ }»", "unexpected-code-block"),
+    # an infix operator without its right operand: the report is where the scanner stopped (the token found instead), not where it began to look
+    ("mov #2 *\t«», r0", "invalid-expression"), (".word (1 /  «»)", "invalid-expression"), (".word 3 %   «»]", "invalid-expression"), ("mov #1 <<  \t «», r1", "invalid-expression"),
     # index expressions that the operand encoder regroups ('-x(r0)' becomes '(-x)(r0)'): the regrouped token keeps the span of what was written
     ("big = 200000\n mov «-big»(r0), r1", "value-out-of-bounds"), ("mov «#4»(r0), r1", "unexpected-value"), ("big = 200000\nmov «big+1»(r0), r1", "value-out-of-bounds"),
     ("big = 200000\nmov @«-big»(r0), r1", "value-out-of-bounds"), ("mov «~<200000>»(r2), r1", "value-out-of-bounds"),
